@@ -21,7 +21,7 @@ def source_snippet(P, fn, bb):
         mm = re.search(r'"([^"]+)"', m)
         return "<%s>" % (mm.group(1).replace("$crate::", "") if mm else m)
     repo = getattr(P, "repo", None) or "/repo"
-    path = os.path.join(repo, fn.file or "")
+    path = os.path.join(repo, fn.blocks[bb].get("file") or fn.file or "")      # blocks of an inlined helper keep their file
     if path not in _SRC:
         try:
             _SRC[path] = open(path, encoding="utf-8", errors="replace").read().split("\n")
